@@ -49,11 +49,11 @@ def sroot(ev, t, crate="shred"):
             return t, list(reversed(path))
 
 
-def evaluate(prog, body, extra_opaque=(), inline=()):
+def evaluate(prog, body, extra_opaque=(), inline=(), keep=None):
     cache = prog.__dict__.setdefault("_semcov", {})
-    k = (body.key, tuple(sorted(extra_opaque)), tuple(sorted(inline)))
+    k = (body.key, tuple(sorted(extra_opaque)), tuple(sorted(inline)), tuple(sorted(keep)) if keep is not None else None)
     if k not in cache:
-        ev = Evaluator(prog.facts, Policy(opaque_names=(LIFECYCLE_NAMES | set(extra_opaque)) - set(inline)))
+        ev = Evaluator(prog.facts, Policy(opaque_names=(LIFECYCLE_NAMES | set(extra_opaque)) - set(inline), self_keep=keep))
         ends = ev.eval(body)
         cache[k] = (ev, ends)
     return cache[k]
@@ -274,11 +274,11 @@ def _known_empty(ev, e, src):
     return False
 
 
-def coverage(prog, body, src, family, extra_opaque=(), inline=(), vacuous=True):
+def coverage(prog, body, src, family, extra_opaque=(), inline=(), vacuous=True, keep=None):
     fam = family if callable(family) else (lambda c: c.name in family)
     fname = getattr(family, "__name__", None) if callable(family) else "/".join(sorted(family))
     try:
-        ev, ends = evaluate(prog, body, extra_opaque, inline)
+        ev, ends = evaluate(prog, body, extra_opaque, inline, keep)
     except Exception as e:
         return Cov("bad", "%s could not be evaluated (%s: %s)" % (body.qname, type(e).__name__, e), [body.loc()])
     rets = [e for e in ends if e.kind == "return"]
